@@ -10,6 +10,7 @@ from .repo import Repo
 from .engine import Engine, explore
 from .symex import Frame
 from .sources import EngineSource, NS, Skip
+from .spec import SKIP
 
 
 class Verdict:
@@ -93,6 +94,8 @@ def make_engine(case, repo, summaries_lib, seed=0, concrete=False):
     loops = {}
     # concrete runs (CPython cross-check) execute the real bodies everywhere: only the library stubs stay
     for s in list(summaries_lib.get("default", [])) + ([] if concrete else list(case.summaries)):
+        if s in getattr(case, "no_summaries", ()):
+            continue
         summaries[s] = summaries_lib["summaries"][s]
     for key in case.loops:
         loops[key] = summaries_lib["loops"][key]
@@ -177,6 +180,8 @@ def verify_case(case, repo=None, summaries_lib=None, seed=0, scope=None):
                     name = "post:" + label
                     try:
                         cond = f(inp, p.value)
+                        if cond is SKIP:
+                            continue
                     except Exception as ex:
                         st, m, dt = _check(solver, False, case.timeout_ms)
                         res.v(name).add(st, dt, prims_of(m), f"postcondition not evaluable on result "
